@@ -357,6 +357,9 @@ def rules(chk, db):
     from .. import encrules
     chk.rule('CO', 'Result / Optional / Variant replies are composed of the documented component encodings on both ends', minimum=30)
     encrules.composition(chk, db, 'CO', ('WritePayload', 'ReadPayload'))
+    # the reply (a Status<T> / Result / Optional return value) is sent through Prepare(Size(reply)): in every state of the value
+    # Size() must size exactly what the writer emits, or the reply is refused / written from the wrong member
+    encrules.size_rules(chk, db)
     witness.run(chk, 'c14_rpc.cpp', 'W', 'compile-time witnesses for interface declarations and bindings', minimum=6)
 
 
